@@ -278,10 +278,39 @@ def r3_r4(p, rep):
             rep.add("C15.R4", f"{f.qualname}:iskwarg", site, ok and ik is not None, "every keyword-only parameter of the user function is an option" if ok else f"iskwarg = {text[:70]}: some keyword-only options of the user function are not recognised")
 
 
+def r5(p, rep, rid="C15.R5"):
+    rep.rule(rid, "every operand handed to the elementary function went through the alignment helper (same number of dimensions, output axis order)", "T-MPT (reaching definitions of the appended operand)", floor=1)
+    from sa.cfg import CFG, ReachingDefs
+
+    n = 0
+    for f in p.funcs.values():
+        if not f.module.name.startswith("einx._src.adapter.") or not isinstance(f.node, (ast.FunctionDef, ast.AsyncFunctionDef)):
+            continue
+        loops = [l for l in walk_no_nested(f.node) if isinstance(l, ast.For)]
+        for loop in loops:
+            aligns = [a for a in ast.walk(loop) if isinstance(a, ast.Assign) and isinstance(a.value, ast.Call) and norm(a.value.func).split(".")[-1] == "_squeeze_transpose_broadcast" and isinstance(a.targets[0], ast.Tuple) and len(a.targets[0].elts) == 2 and isinstance(a.targets[0].elts[1], ast.Name)]
+            if not aligns:
+                continue
+            T = aligns[0].targets[0].elts[1].id
+            if T not in {x.id for x in ast.walk(loop.target) if isinstance(x, ast.Name)}:
+                continue
+            cfg = CFG(f.node)
+            rd = ReachingDefs(cfg)
+            align_nodes = {cfg.node_for(a).id for a in aligns}
+            for ap in [c for c in ast.walk(loop) if isinstance(c, ast.Call) and isinstance(c.func, ast.Attribute) and c.func.attr == "append" and c.args and isinstance(c.args[0], ast.Name) and c.args[0].id == T]:
+                n += 1
+                defs = set(rd.defs_reaching(cfg.node_for(ap), T))
+                ok = bool(defs) and defs <= align_nodes
+                rep.add(rid, f"{f.qualname}:append({T})", f"{f.module.rel}:{ap.lineno}", ok, f"`{T}` appended to the operand list is always the result of the alignment helper" if ok else f"on some path `{norm(ap)}` appends the raw operand (the loop variable) instead of the aligned one: the elementary / user function then receives operands of different rank (e.g. a Python scalar next to an n-d array), against the documented equal-rank guarantee")
+    if n == 0:
+        raise AnalysisError("unrecognised idiom: no operand-alignment loop found in einx._src.adapter")
+
+
 def run(p, rep, tier):
     r1(p, rep)
     r2(p, rep)
     r3_r4(p, rep)
+    r5(p, rep)
     from . import c05
 
     c05.r8(p, rep)
